@@ -105,12 +105,20 @@ DEFOP(bulk_string) {
 }
 
 // ------------------------------------------------------------------ add
-static bool take_item(World &w, const Step &st, int64_t arg, MVal *c, MVal *&x, int &xs) {
-    xs = w.live_slot(arg);
-    if (xs < 0) { w.noop(st, "no item"); return false; }
+static bool take_item(World &w, const Step &st, int64_t arg, MVal *c, MVal *&x, int &xs, bool need_key = false) {
+    // the (arg mod #candidates)-th detached root that may legally be moved: not referenced, not an ancestor of the container
+    int cand[NSLOTS], n = 0;
+    MVal *croot = c ? mv_root(c) : nullptr;
+    for (int i = 0; i < NSLOTS; i++) {
+        MVal *r = w.slots[i];
+        if (!r || !w.movable_root(r) || r == croot) continue;
+        if (need_key && (r->keystate != K_KNOWN || !r->c->string)) continue;
+        cand[n++] = i;
+    }
+    if (!n) { w.noop(st, need_key ? "no movable item with a key" : "no movable item"); return false; }
+    xs = cand[(uint64_t)arg % (uint64_t)n];
     x = w.slots[xs];
-    if (!w.movable_root(x)) { w.noop(st, "item is referenced (frozen)"); return false; }
-    if (c && mv_root(c) == x) { w.noop(st, "item would become its own descendant"); return false; }
+    w.touch(xs);
     return true;
 }
 DEFOP(add_arr) {
@@ -130,7 +138,7 @@ static void add_obj_common(World &w, const Step &st, int mode) {  // 0 copy key,
     MVal *x; int xs;
     MVal *c = w.pick(st.A(0), st.A(1), [&](MVal *m) { return editable_container(w, m) && m->type == T_OBJECT; });
     if (!c) { w.noop(st, "no object"); return; }
-    if (!take_item(w, st, st.A(2), c, x, xs)) return;
+    if (!take_item(w, st, st.A(2), c, x, xs, mode == 2)) return;
     std::string key;
     const char *kp;
     int pi = -1;
@@ -320,7 +328,7 @@ static void replace_key_common(World &w, const Step &st, bool alias) {
     MVal *x; int xs;
     MVal *c = w.pick(st.A(0), st.A(1), [&](MVal *m) { return editable_container(w, m) && m->type == T_OBJECT && all_keys_known(m); });
     if (!c) { w.noop(st, "no object"); return; }
-    if (!take_item(w, st, st.A(3), c, x, xs)) return;
+    if (!take_item(w, st, st.A(3), c, x, xs, alias)) return;
     bool cs = st.A(2) & 1;
     std::string key;
     const char *kp;
